@@ -7,11 +7,12 @@ from gen.pools import rand_f32, rand_i32, I32, F32, fbits
 from gen.stategen import L, I, N, B, Z, F, BV, IV, FV
 
 PROPERTY = "C11"
-PROPS_VO = "Props/C11"
+PROPS_VO = ["Props/C11", "Props/C11f"]
+AXIOMS_OK_BY_FILE = {"Props/C11f": vcheck.FLOCQ_AXIOMS}
 AXIOMS_OK = []
 ASSUMPTIONS = [
     "class of the exact round trip: printable programs (Spec/ParseSpec.v: every atom's printed text is one token that lexes back to the same atom) = lists, i32, TRUE/FALSE, registered instructions, parser-producible names; names that lex as something else ('5', 'TRUE', 'INT[1]') and vector literals (printed without their INT/FLOAT/BOOL prefix) are outside and shown to be mis-read (C11_*_refuted)",
-    "floats: C11_print_parse_print_floats_partial is parametric in the scalar law fparse (ffmt 3 x) = Some y -> ffmt 3 y = ffmt 3 x; the law is NOT proved for binary32, it is tested on the implementation by the float-sweep stream (a test of the code, not a theorem about the model)",
+    "floats: C11_print_parse_print_floats_partial is parametric in the scalar law fparse (ffmt 3 x) = Some y -> ffmt 3 y = ffmt 3 x; the law IS proved for the executable Flocq binary32 instance (Proofs/Fmt3Law.v: fmt3_stable, every bit pattern; Props/C11f.v: C11_print_parse_print_floats_flocq has no float premise left; these depend on the four classical axioms of Coq's Reals that Flocq imports) and it is enumerated on the implementation by the float-scalar-law-sweep stream (all 2^32 bit patterns in the thorough tier)",
     "side condition str_fits (fewer than 2^64 characters), as in C03",
     "items produced by pushr's random_code generator are not drawn by this check; the random trees cover the same atom kinds",
 ]
